@@ -1,0 +1,51 @@
+//go:build verif
+
+// Package verifhook is a tracing hook for external verification harnesses. With the
+// "verif" build tag Emit forwards to an installable sink together with a process-wide
+// sequence number; an optional gate lets a harness hold a goroutine at an event.
+package verifhook
+
+import (
+	"sync"
+	"sync/atomic"
+)
+
+// Enabled reports whether hooks are compiled in.
+const Enabled = true
+
+type Sink func(seq int64, ev string, kv []interface{})
+
+var (
+	seq  int64
+	mu   sync.RWMutex
+	sink Sink
+	gate func(ev string, kv []interface{})
+)
+
+// SetSink installs (or with nil removes) the event sink.
+func SetSink(s Sink) {
+	mu.Lock()
+	sink = s
+	mu.Unlock()
+}
+
+// SetGate installs a function called before the event is recorded; it may block.
+func SetGate(g func(ev string, kv []interface{})) {
+	mu.Lock()
+	gate = g
+	mu.Unlock()
+}
+
+// Emit records one event. Call it after the state change it describes and while
+// still holding the lock that protects that state.
+func Emit(ev string, kv ...interface{}) {
+	mu.RLock()
+	s, g := sink, gate
+	mu.RUnlock()
+	if g != nil {
+		g(ev, kv)
+	}
+	if s != nil {
+		s(atomic.AddInt64(&seq, 1), ev, kv)
+	}
+}
